@@ -47,6 +47,12 @@ def run(tier, seed, work, replay):
                     if tier == "quick" and am in ("nolifetime", "refuse", "noremove", "noremove_once") and not (p == "p256" and m == "password"):
                         continue
                     cases.append({"pref": p, "mode": m, "agent": a, "agentmode": am})
+        # the default deployment (no Ed25519 CA key): every preferred key type still gets its main certificates
+        for pr in prefs:
+            if tier == "quick" and pr == "rsa":
+                continue
+            cases.append({"pref": pr, "mode": "password_noed", "agent": True, "agentmode": "ok"})
+        cases.append({"pref": "p256", "mode": "password_noed", "agent": False, "agentmode": "none"})
         # a user whose name makes the agent labels long (keymaster-ed25519-<28 characters>)
         cases.append({"pref": "p256", "mode": "password", "agent": True, "agentmode": "ok", "user": "alice.with.quite.a.long.name"})
         cp = work.path("cases.ndjson")
